@@ -220,6 +220,9 @@ func GenG(t *rapid.T, o Opts) *G {
 	}
 	if o.Styles {
 		g.Style = ri(t, 0, 63, "style")
+		if ri(t, 0, 3, "ws-style") == 0 {
+			g.Style |= ri(t, 1, 7, "ws-bits") << 6 // CRLF / tabs / trailing blanks
+		}
 	}
 	return g
 }
